@@ -116,4 +116,5 @@ func init() {
 		}
 		return hx.RunLedgerTrace(ops, fs)
 	}
+	replayers["C04/ledger-machine-long"] = replayers["C04/ledger-machine"]
 }
